@@ -488,7 +488,8 @@ def expand_lock(name, text, mutex='self->_m', lockvar='lock'):
     m = decl.search(text)
     if not m:
         raise ExtractionBreak('%s: no RAII lock declaration `%s`' % (name, lockvar))
-    text = text[:m.start()] + 'MON_LOCK(&%s); int %s_held = 1;' % (mutex, lockvar) + text[m.end():]
+    # the flag is declared at the top of the body so that a return placed before the declaration of the lock object stays well formed
+    text = 'int %s_held = 0; ' % lockvar + text[:m.start()] + 'MON_LOCK(&%s); %s_held = 1;' % (mutex, lockvar) + text[m.end():]
     text = re.sub(L + r'\s*\.\s*unlock\s*\(\s*\)\s*;', '{ MON_UNLOCK(&%s); %s_held = 0; }' % (mutex, lockvar), text)
     text = re.sub(L + r'\s*\.\s*lock\s*\(\s*\)\s*;', '{ MON_LOCK(&%s); %s_held = 1; }' % (mutex, lockvar), text)
     # calls that take the lock by move: f(std::move(lock))  ->  f_locked(...) ; flag cleared
